@@ -65,10 +65,13 @@ class RevRunner:
     def close(self):
         self.vdb.close()
 
-    def case(self, hist, sd, norm_order, rows, cmd, target):
-        """runs the implementation now, queues the model"""
+    def case(self, hist, sd, norm_order, rows, cmd, target, prior=None):
+        """runs the implementation now, queues the model.  `prior` = the commands already run on this
+        very ScriptDirectory object (the model is stateless; a dependence on them is a finding)"""
         impl = rev_impl.command(sd, self.vdb, rows, cmd, target)
         c = {"revs": hist, "normOrder": norm_order, "rows": list(rows), "cmd": cmd}
+        if prior:
+            c["prior"] = [list(p) for p in prior]
         if cmd == "stamp":
             c["targets"] = list(target)
         else:
@@ -106,6 +109,7 @@ def drive_commands(ctx, runner, rng, hist, cmds_per_graph, cmd_weights, on_resul
         return False
     norm_order = info["normOrder"]
     rows = []
+    prior = []
     for k in range(cmds_per_graph):
         cmd = rng.choices(["upgrade", "downgrade", "stamp"], weights=cmd_weights)[0]
         if not rows and cmd == "downgrade" and rng.random() < 0.8:
@@ -115,7 +119,8 @@ def drive_commands(ctx, runner, rng, hist, cmds_per_graph, cmd_weights, on_resul
         # the version table hands rows back in arbitrary order: shuffle what we pass in
         rows_in = list(rows)
         rng.shuffle(rows_in)
-        impl = runner.case(hist, sd, norm_order, rows_in, cmd, target)
+        impl = runner.case(hist, sd, norm_order, rows_in, cmd, target, prior=prior)
+        prior.append((rows_in, cmd, target))
         if "err" not in impl and "stepErr" not in impl:
             rows = final_rows(impl, rows_in)
         if rng.random() < 0.08:
@@ -187,8 +192,8 @@ def histories_for(ctx, rng):
     for n in range(1, n_ex + 1):
         for hist in gen_graph.all_histories(n):
             yield "exhaustive-%d" % n, hist
-    n_rand = 1500 if ctx.thorough else 160
-    for hist in random_histories(ctx, rng, n_rand, 2, 14 if ctx.thorough else 10):
+    n_rand = 1500 if ctx.thorough else 450
+    for hist in random_histories(ctx, rng, n_rand, 2, 14 if ctx.thorough else 12):
         yield "random", hist
 
 
@@ -226,7 +231,7 @@ def run_focus(ctx, focus_name, rng_name="main", scale=1.0):
                         seen.add(tk)
                         runner.case(hist, sd, norm_order, rows, cmd, t)
         else:
-            drive_commands(ctx, runner, rng, hist, int((14 if ctx.thorough else 10) * scale), focus.weights, on_result)
+            drive_commands(ctx, runner, rng, hist, int((14 if ctx.thorough else 12) * scale), focus.weights, on_result)
         if len(runner.pending) > 4000:
             runner.flush(on_result)
             judge(ctx, focus, collected, sds)
